@@ -457,6 +457,35 @@ def shrink(ctx, binp, c, sig):
     return best
 
 
+# ------------------------------------------------------------------ search around a disagreement
+
+def search_around(ctx, binp, c):
+    """model and implementation disagree on c but the monitor is silent: look for a nearby case (same logits, other
+    draws and parameters; sub-vectors; scaled logits) on which the property itself fails on the implementation"""
+    if c.get("op") != "sample" or not c.get("logits"):
+        return None
+    rng = ctx.rng
+    muts = []
+    logits = c["logits"]
+    draws = [0, 1, (1 << 24) - 1, (1 << 24) - 2, 1 << 23, 1 << 22, 3 << 22] + [rng.randrange(1 << 24) for _ in range(5)]
+    for t in (c["temp"], f2b(1.0), f2b(0.3), f2b(0.0)):
+        for k in (c["topk"], 0, 1, 2):
+            for p in (c["topp"], f2b(0.5), f2b(1.0)):
+                for mp in (c["minp"], f2b(0.3), f2b(1.0)):
+                    muts.append(dict(c, temp=t, topk=k, topp=p, minp=mp, draws=draws, klass="search"))
+    for _ in range(20):
+        sub = [b for b in logits if rng.random() < 0.6] or logits[:1]
+        muts.append(dict(c, logits=sub, draws=draws, klass="search"))
+    obs, _ = ctx.run_jsonl(binp, muts)
+    if not obs or len(obs) != len(muts):
+        return None
+    for m, o in zip(muts, obs):
+        found = monitor_sample(ctx, m, o)
+        if found:
+            return m, o, found[0]
+    return None
+
+
 # ------------------------------------------------------------------ the check
 
 def evaluate(ctx, binp, cases, tag):
@@ -525,6 +554,13 @@ def evaluate(ctx, binp, cases, tag):
                 shown = ctx.coq_print(HEADER, mt) if mt else None
         for n_ in sorted(set(failed)):
             ctx.count("mismatch:" + n_)
+        if not ctx.violations and ctx.extra.get("searches_around_disagreements", 0) < 5:
+            ctx.extra["searches_around_disagreements"] = ctx.extra.get("searches_around_disagreements", 0) + 1
+            hit = search_around(ctx, binp, cases[ci])
+            if hit:
+                m_, o_, (sig_, what_) = hit
+                ctx.violation(sig_, what_ + "  (found by searching around a model/implementation disagreement at %s)" % sorted(set(failed)),
+                              {"case": m_, "impl": o_, "disagreeing_case": cases[ci]})
         ctx.mismatch("Sample/Corr: model and implementation differ at %s" % sorted(set(failed)), cases[ci], obs[ci], shown)
     n, badexp = exp_hypotheses(tables)
     ctx.extra["exp_table_entries_" + tag] = n
@@ -532,6 +568,33 @@ def evaluate(ctx, binp, cases, tag):
     if badexp:
         ctx.proof_failures.append({"obligation": "hypothesis on the exp oracle fails for math.Exp", "detail": badexp[:10]})
     return obs
+
+
+def exp_probe(ctx, binp):
+    """the hypotheses the theorems make on the exp oracle, tested against the real math.Exp on edge values and random
+    non-positive arguments (what softmax can pass: differences x - max <= 0, -Inf, NaN)"""
+    rng = ctx.rng
+    xs = [0, 1 << 31, NINF, QNAN, 0xFFC00000, f2b(-1e-45), f2b(-1e-38), f2b(-87.3), f2b(-87.4), f2b(-103.9), f2b(-104.0), f2b(-1e30), 0xFF7FFFFF, (1 << 31) | 1]
+    n = 3000 if ctx.quick() else 60000
+    for _ in range(n):
+        u = rng.random()
+        if u < 0.4:
+            xs.append(f2b(-abs(rng.gauss(0, 10))))
+        elif u < 0.7:
+            xs.append(f2b(-10 ** rng.uniform(-45, 39)))
+        else:
+            xs.append((1 << 31) | rng.randrange(0, 0x7F800001))   # any non-positive number incl. -0 and -Inf
+    obs, err = ctx.run_jsonl(binp, [{"op": "exp", "xs": xs}])
+    if not obs or "exp" not in obs[0]:
+        ctx.obligation("exp probe answered", False, err)
+        ctx.proof_failures.append({"obligation": "exp probe did not answer", "detail": err})
+        return
+    n, bad = exp_hypotheses([obs[0]["exp"]])
+    ctx.extra["exp_probe_points"] = n
+    ctx.obligation("hypotheses on the exp oracle (exp_oracle_ok: exp(-Inf)=+0, exp(+-0)=1, exp(NaN)=NaN, 0<=exp(x)<=1 for x<=0; monotone) hold for "
+                   "float32(math.Exp(float64(x))) on %d probed arguments" % n, not bad, str(bad[:5]))
+    if bad:
+        ctx.proof_failures.append({"obligation": "hypothesis on the exp oracle fails for math.Exp", "detail": bad[:10]})
 
 
 def run(ctx):
@@ -552,14 +615,29 @@ def run(ctx):
     binp = ctx.go_build("c18")
     if not binp:
         return
+    exp_probe(ctx, binp)
     cases = gen_cases(ctx)
     ctx.log("generated %d cases" % len(cases))
     obs = evaluate(ctx, binp, cases, "pass1")
     if obs is None:
         return
+    # reproducibility across processes: the seeded streams once more, in a fresh process
+    seeded = [(c, o) for c, o in zip(cases, obs) if c["op"] == "seed" and isinstance(o, dict) and o.get("seeded")]
+    if seeded:
+        again, err = ctx.run_jsonl(binp, [c for c, _ in seeded])
+        ok = again is not None and len(again) == len(seeded)
+        ctx.obligation("seeded streams re-run in a second process (%d streams)" % len(seeded), ok, err if not ok else "")
+        if ok:
+            for (c, o), o2 in zip(seeded, again):
+                if o.get("a") != o2.get("a") or o.get("ea") != o2.get("ea"):
+                    ctx.violation({"class": "not-reproducible", "across": "processes"},
+                                  "seed %d gave %r in one process and %r in another on the same logit stream" % (c["seed"], o.get("a"), o2.get("a")),
+                                  {"case": c, "impl": o, "impl_second_process": o2})
     more = boundary_cases(cases, obs, ctx.rng, 250 if ctx.quick() else 4000)
     if more:
         evaluate(ctx, binp, more, "boundary")
+    if not ctx.quick():
+        ctx.coqchk(["V.Sample.Properties_C18"])
 
 
 def replay(ctx, path):
